@@ -1044,10 +1044,40 @@ pub fn run_one(spec: &SoloSpec, seed: u64, tier: Tier, i: u64, runs: u64, stats:
 /// the alphabet 0..A (A = 16 quick, 64 thorough; a byte picks `byte % n` among the n <= 64 candidate
 /// opcodes) with min = max = 5 opcodes — a systematic walk of the decision tree near the empty stack
 pub fn enum_count(spec: &SoloSpec, tier: Tier) -> u64 {
+    let stacked = stacked_count(spec, tier);
     if !spec.enumerate_short {
+        return stacked;
+    }
+    stacked + short_script_count(spec, tier) + short_program_count(tier)
+}
+
+/// "stacked" configurations: one mutator kind registered six times at rate 1.0 (every kind x every
+/// protocol x S seeds, safe and - where the property allows - unsafe): repeated registration is
+/// where per-value bounds (payload < 256 bytes, one rewrite per emission) are most at risk
+pub fn stacked_count(spec: &SoloSpec, tier: Tier) -> u64 {
+    if matches!(spec.prop, "C14" | "C12") {
         return 0;
     }
-    short_script_count(spec, tier) + short_program_count(tier)
+    let s = match tier {
+        Tier::Quick => 50,
+        Tier::Thorough => 600,
+    };
+    7 * 6 * s
+}
+
+fn stacked_scenario(spec: &SoloSpec, e: u64) -> Scenario {
+    let kind = (e % 7) as u8;
+    let p = ((e / 7) % 6) as u8;
+    let seed = e / 42;
+    let mut c = Config::default_for(p);
+    c.mutators = vec![kind; 6];
+    c.rate = 1.0;
+    c.unsafe_mutations = spec.profile.allow_unsafe && seed % 2 == 1;
+    c.allow_ext = seed % 3 == 0;
+    c.allow_buffer = seed % 3 == 0;
+    let mut sc = Scenario::solo(c, Entropy::Rand(seed));
+    sc.faults.push(desc::Fault { kind: "mutators", at: 0, detail: format!("{} registered six times at rate 1", desc::MUT_NAMES[kind as usize]) });
+    sc
 }
 
 fn short_script_count(spec: &SoloSpec, tier: Tier) -> u64 {
@@ -1080,6 +1110,11 @@ fn enum_passes(spec: &SoloSpec) -> u64 {
 
 /// e-th enumerated scenario
 pub fn enum_scenario(spec: &SoloSpec, tier: Tier, e: u64) -> Scenario {
+    let stacked = stacked_count(spec, tier);
+    if e < stacked {
+        return stacked_scenario(spec, e);
+    }
+    let e = e - stacked;
     let base = short_script_count(spec, tier);
     if e >= base {
         // short programs from the empty stack
